@@ -117,9 +117,15 @@ func execC03Forward(sc c03fScenario) *vstat.Outcome {
 		logs := c03fUp.logsFor(func(l *upLog) bool { return l.ReqID == resp.ReqID })
 		pass := r.Method != "GET" && r.Method != "HEAD"
 		if pass {
-			// Go's transport never replays these methods; pike must not either
-			if len(logs) != 1 {
+			// Go's transport never replays these methods; pike must not either. (Not at all is
+			// possible too: a pooled upstream connection that an earlier fault has killed fails on
+			// its next use before the origin sees anything -- then the client must get an error.)
+			failedVisibly := resp.Err != "" || resp.Code >= 400
+			if len(logs) > 1 || len(logs) == 0 && !failedVisibly {
 				out.Violate("C03", "forwarded-once", "%s: the origin received this request %d times (the client got status %d, X-Status %q, error %q)", what, len(logs), resp.Code, resp.Header.Get("X-Status"), resp.Err)
+			}
+			if len(logs) == 0 {
+				out.Class("pass_request_lost_on_dead_pooled_connection")
 			}
 			if r.Fault != "" {
 				faulted++
